@@ -2,7 +2,7 @@
 """Run the repository's test suite (guard OFF) and compare with the pinned baseline.
 
 Exit 0 iff every test in BASELINE.json's stable_pass list passes.
-usage: baseline_check.py [-n WORKERS]
+usage: baseline_check.py [-n WORKERS] [--repo DIR]
 """
 import ast, json, os, subprocess, sys, tempfile, xml.etree.ElementTree as ET
 
@@ -10,6 +10,9 @@ def main():
     workers = None
     if "-n" in sys.argv:
         workers = sys.argv[sys.argv.index("-n") + 1]
+    repo = "/repo"
+    if "--repo" in sys.argv:
+        repo = sys.argv[sys.argv.index("--repo") + 1]
     base = json.load(open("/root/.vp/BASELINE.json"))
     stable = base["stable_pass"]
     if isinstance(stable, str):
@@ -18,11 +21,13 @@ def main():
     fd, junit = tempfile.mkstemp(suffix=".xml", dir="/var/tmp"); os.close(fd)
     env = dict(os.environ)
     env.pop("ORQUESTRA_QUANTUM_VERIF", None)
+    if repo != "/repo":
+        env["PYTHONPATH"] = repo + "/src"
     cmd = ["/venv/bin/python", "-m", "pytest", "-q", "-p", "no:cacheprovider", "--timeout=900",
            "--continue-on-collection-errors", "--junitxml=" + junit]
     if workers:
         cmd += ["-n", workers]
-    p = subprocess.run(cmd, cwd="/repo", env=env, stdout=subprocess.PIPE, stderr=subprocess.STDOUT, text=True)
+    p = subprocess.run(cmd, cwd=repo, env=env, stdout=subprocess.PIPE, stderr=subprocess.STDOUT, text=True)
     tail = p.stdout.strip().splitlines()[-1:] 
     passed = set()
     for tc in ET.parse(junit).getroot().iter("testcase"):
